@@ -249,6 +249,7 @@ GENS = {
     # long random behaviours (2 interpolators of any kind, 40 calls) from TLC's simulation mode
     "NdWalk": {"name": "Gen_NdInterpWalk", "module": "Gen_NdInterp.tla", "cfg": "Gen_NdInterpWalk.cfg", "scenario": "script",
                "reset_every": 0, "mark_every": 5, "simulate": {"num": 60, "num_thorough": 600, "depth": 100}},
+    "Lanes": {"name": "Gen_Lanes", "module": "Gen_Lanes.tla", "cfg": "Gen_Lanes.cfg", "scenario": "script", "reset_every": 20},
     "Lookup": {"name": "Gen_Lookup", "module": "Gen_Lookup.tla", "cfg": "Gen_Lookup.cfg", "cfg_thorough": "Gen_Lookup_thorough.cfg", "scenario": "lower"},
 }
 
@@ -275,7 +276,7 @@ PROP_MODELS = {
     "C20": ["Linear", "Bilinear"],
 }
 PROP_GENS = {"C12": ["Monotone"], "C11": ["Lookup"], "C10": ["Builder"], "C14": ["Buffers", "NdLinear"], "C13": ["Buffers"], "C19": ["DimTypes"],
-             "C04": ["Nd2D"], "C05": ["NdLinear", "Nd2D"], "C06": ["NdSpline"], "C07": ["NdSpline"], "C17": ["NdLinear", "NdWalk"]}
+             "C04": ["Nd2D"], "C03": ["Lanes"], "C08": ["Lanes"], "C05": ["NdLinear", "Nd2D"], "C06": ["NdSpline"], "C07": ["NdSpline"], "C17": ["NdLinear", "NdWalk"]}
 
 for _p, _ms in PROP_MODELS.items():
     PROPS[_p]["mc"] = [MODELS[m] for m in _ms]
